@@ -79,7 +79,6 @@ def _env():
 
 def run(prop, tier, harnesses):
     t0 = time.time()
-    d = workdir()
     names = [h['name'] for h in harnesses]
     cmd = ['cargo', 'kani', '-Z', 'stubbing', '-Z', 'function-contracts', '-Z', 'unstable-options',
            '--harness-timeout', '420s' if tier == 'quick' else '1500s', '--output-format', 'terse']
@@ -92,6 +91,7 @@ def run(prop, tier, harnesses):
     try:
         import fcntl
         fcntl.flock(lock, fcntl.LOCK_EX)
+        d = workdir()   # (under the lock: concurrent scratch runs share the -alt directory)
         p = subprocess.run(cmd, cwd=d, env=_env(), capture_output=True, text=True, timeout=KANI_TIMEOUT)
     except subprocess.TimeoutExpired:
         res['undecided'] = f'kani timeout after {KANI_TIMEOUT}s'
@@ -139,11 +139,20 @@ def run(prop, tier, harnesses):
             res['wall_s'][n] = float(mt.group(1))
     # a harness CBMC gave up on (time / memory) is undecided, never a violation
     timed_out = {n for n, lns in per.items() if any('CBMC timed out' in l or 'out of memory' in l.lower() for l in lns)}
+    # ... and so is a harness reported as failed without any failed check (CBMC killed / crashed)
+    for n in list(failed_names):
+        txt = '\n'.join(per.get(n, []))
+        fc = [l for l in per.get(n, []) if l.startswith('Failed Checks:')]
+        if not fc and not re.search(r'\*\* [1-9]\d* of \d+ failed', txt):
+            timed_out.add(n)
+        # a reachable construct Kani does not support is a tool limit, not a failed check
+        elif fc and all('not currently supported by Kani' in l for l in fc):
+            timed_out.add(n)
     failed_names -= timed_out
     for n in sorted(timed_out):
         hh = next((h for h in harnesses if h['name'] == n), None)
         if hh and hh['mode'] == 'complete':
-            res['undecided'] = f'kani harness {n} exceeded its time/memory limit'
+            res['undecided'] = f'kani harness {n} did not complete (time or memory limit, or CBMC killed)'
     for h in harnesses:
         if h['name'] in timed_out and h['mode'] != 'complete':
             res['bounded'].append({'obligation': h['id'], 'bound': h['mode'], 'harness': h['name'], 'result': 'not decided: CBMC time limit'})
@@ -177,17 +186,18 @@ def playback(h):
     """Re-run one failing harness with concrete playback and execute the generated test natively
     against the real crate (cargo kani playback)."""
     info = {}
-    d = os.path.join(WORK, 'kani-replay')
+    d = os.path.join(WORK, 'kani-replay-%d' % os.getpid())
+    wd = os.path.join(WORK, 'kani' if REPO == '/repo' else 'kani-alt')   # (not workdir(): no rewrite outside the lock)
     try:
         if os.path.exists(d):
             shutil.rmtree(d)
         os.makedirs(d)
         tmpl = open(os.path.join(VERIF, 'kani', 'Cargo.toml.in')).read().replace('@REPO@', REPO)
         open(os.path.join(d, 'Cargo.toml'), 'w').write(tmpl)
-        shutil.copy(os.path.join(workdir(), 'Cargo.lock'), os.path.join(d, 'Cargo.lock'))
+        shutil.copy(os.path.join(wd, 'Cargo.lock'), os.path.join(d, 'Cargo.lock'))
         shutil.copytree(os.path.join(VERIF, 'kani', 'src'), os.path.join(d, 'src'))
         env = _env()
-        env['CARGO_TARGET_DIR'] = os.path.join(workdir(), 'target')
+        env['CARGO_TARGET_DIR'] = os.path.join(wd, 'target')
         cmd = ['cargo', 'kani', '-Z', 'stubbing', '-Z', 'function-contracts', '-Z', 'concrete-playback',
                '--concrete-playback=inplace', '--harness', h['name'], '--output-format', 'terse']
         p = subprocess.run(cmd, cwd=d, env=env, capture_output=True, text=True, timeout=900)
